@@ -105,3 +105,49 @@ Print Assumptions C02_handles_traced.
 Theorem C02_traced_handles_known : forall s, TInv s -> Forall (known s) (trace s).
 Proof. exact traced_handles_known. Qed.
 Print Assumptions C02_traced_handles_known.
+
+(* ------------------------------------------------------------------ fragments *)
+Theorem C02_tree_no_panic_fragment_partial :
+  forall o name attrs with_form toks,
+    match init_fragment name attrs with_form (init_state o) with
+    | Ok _ s0 =>
+      protocol s0 toks ->
+      match run_tokens s0 toks [] with
+      | RunOk s' _ => TInv s'
+      | RunPanic n => n = 99%N
+      | RunFuel => True
+      end
+    | _ => False
+    end.
+Proof. exact tree_no_panic_fragment_partial. Qed.
+Print Assumptions C02_tree_no_panic_fragment_partial.
+
+(* ------------------------------------------------------------------ skeleton facts carried by the invariant (C06) *)
+Theorem C02_stack_bottom_is_html :
+  forall s, TInv s -> early_mode (mode s) = false ->
+    exists r rest, open_elems s = r :: rest /\ ename_of s r = html_html.
+Proof. exact stack_bottom_is_html. Qed.
+Print Assumptions C02_stack_bottom_is_html.
+
+Theorem C02_pointers_named :
+  forall s, TInv s ->
+    (forall h, head_elem s = Some h -> ename_of s h = (ns_html, nm "head")) /\
+    (forall f, form_elem s = Some f -> ename_of s f = (ns_html, nm "form")).
+Proof. exact pointers_named. Qed.
+Print Assumptions C02_pointers_named.
+
+(* ------------------------------------------------------------------ refinements of helpers *)
+Theorem C02_in_scope_spec :
+  forall s scope pred l,
+    in_scope_l s scope pred l = true <->
+    exists pre x post, l = pre ++ x :: post /\ pred x = true /\
+      Forall (fun y => pred y = false /\ scope (ename_of s y) = false) pre.
+Proof. exact in_scope_l_spec. Qed.
+Print Assumptions C02_in_scope_spec.
+
+Theorem C02_implied_end_tags_spec :
+  forall s set l p q, implied_split s set l = (p, q) ->
+    l = p ++ q /\ Forall (fun h => set (ename_of s h) = true) p /\
+    match q with [] => True | h :: _ => set (ename_of s h) = false end.
+Proof. exact implied_split_spec. Qed.
+Print Assumptions C02_implied_end_tags_spec.
